@@ -322,10 +322,10 @@ Qed.
 Lemma pending_init : forall f : cnf, pending (map (pair false) f) = length f.
 Proof. induction f as [|c f IH]; simpl; auto. Qed.
 
-Theorem mus_maxsat_partial : forall f, ~ Satisfiable n f ->
-  exists s, mus_maxsat n minrelax f = MusOk s /\ submultiset s f /\ ~ Satisfiable n s.
+Theorem mus_maxsat_gather_spec : forall f, ~ Satisfiable n f ->
+  exists s, mus_maxsat_gather n minrelax f = MusOk s /\ submultiset s f /\ ~ Satisfiable n s.
 Proof.
-  intros f Hu. unfold mus_maxsat. apply maxsat_loop_spec; auto.
+  intros f Hu. unfold mus_maxsat_gather. apply maxsat_loop_spec; auto.
   - apply map_snd_pair_false.
   - rewrite pending_init. lia.
   - intros c. unfold hard_of.
@@ -345,9 +345,10 @@ Qed.
 Lemma viol_nonneg : forall m s, 0 <= viol m s.
 Proof. intros. unfold viol. lia. Qed.
 
-Theorem mus_maxsat_sat : forall f, Satisfiable n f -> mus_maxsat n minrelax f = MusErr.
+Theorem mus_maxsat_gather_sat : forall f, Satisfiable n f ->
+  mus_maxsat_gather n minrelax f = MusErr.
 Proof.
-  intros f [m0 [Hl0 Hs0]]. unfold mus_maxsat. cbn [maxsat_loop].
+  intros f [m0 [Hl0 Hs0]]. unfold mus_maxsat_gather. cbn [maxsat_loop].
   assert (Eh : hard_of (map (pair false) f) = []).
   { unfold hard_of. clear. induction f as [|x f IH]; simpl; auto. }
   assert (Es : soft_of (map (pair false) f) = f).
@@ -359,6 +360,28 @@ Proof.
     pose proof (viol_nonneg m f). assert (E : viol m f = 0) by lia.
     apply viol_zero in E. rewrite E. reflexivity.
   - exfalso. apply Hm. exists m0. split; auto.
+Qed.
+
+(* the algorithm before the repair: only sub-multiset + unsatisfiable *)
+Theorem mus_maxsat_old_partial : forall f, ~ Satisfiable n f ->
+  exists s, mus_maxsat_old n minrelax f = MusOk s /\ submultiset s f /\ ~ Satisfiable n s.
+Proof. exact mus_maxsat_gather_spec. Qed.
+
+(* the repaired algorithm: gathering, then deletion on the gathered clauses *)
+Theorem mus_maxsat_correct : forall f, ~ Satisfiable n f ->
+  exists s, mus_maxsat n sat subset minrelax f = MusOk s /\ is_mus n f s.
+Proof.
+  intros f Hu. unfold mus_maxsat.
+  destruct (mus_maxsat_gather_spec f Hu) as [g [Eg [Hsub Hug]]]. rewrite Eg.
+  destruct (mus_deletion_correct g Hug) as [s [Es [H1 [H2 H3]]]].
+  exists s. split; [exact Es|]. split; [|split]; auto.
+  eapply submultiset_trans; eauto.
+Qed.
+
+Theorem mus_maxsat_sat : forall f, Satisfiable n f ->
+  mus_maxsat n sat subset minrelax f = MusErr.
+Proof.
+  intros f Hs. unfold mus_maxsat. rewrite (mus_maxsat_gather_sat f Hs). reflexivity.
 Qed.
 
 End Correct.
@@ -418,12 +441,19 @@ Proof. intros n f. apply mus_insertion_correct; [apply sat_ref_ok|apply subset_r
 Theorem mus_insertion_ref_sat : forall n f, Satisfiable n f -> mus_insertion_ref n f = MusErr.
 Proof. intros n f. apply mus_insertion_sat. apply subset_ref_ok. Qed.
 
-Theorem mus_maxsat_ref_partial : forall n f, ~ Satisfiable n f ->
-  exists s, mus_maxsat_ref n f = MusOk s /\ submultiset s f /\ ~ Satisfiable n s.
-Proof. intros n f. apply mus_maxsat_partial. apply minrelax_ref_ok. Qed.
+Theorem mus_maxsat_ref_correct : forall n f, ~ Satisfiable n f ->
+  exists s, mus_maxsat_ref n f = MusOk s /\ is_mus n f s.
+Proof.
+  intros n f. apply mus_maxsat_correct;
+    [apply sat_ref_ok|apply subset_ref_ok|apply minrelax_ref_ok].
+Qed.
 
 Theorem mus_maxsat_ref_sat : forall n f, Satisfiable n f -> mus_maxsat_ref n f = MusErr.
 Proof. intros n f. apply mus_maxsat_sat. apply minrelax_ref_ok. Qed.
+
+Theorem mus_maxsat_old_ref_partial : forall n f, ~ Satisfiable n f ->
+  exists s, mus_maxsat_old_ref n f = MusOk s /\ submultiset s f /\ ~ Satisfiable n s.
+Proof. intros n f. apply mus_maxsat_old_partial. apply minrelax_ref_ok. Qed.
 
 (* ---- the executable specification ---- *)
 
@@ -449,7 +479,7 @@ Proof.
 Qed.
 
 (* ================================================================== *)
-(* 3. MUSMaxSat is not minimal                                          *)
+(* 3. MUSMaxSat before the repair (commit 6770e40) was not minimal      *)
 
 Definition F_two_cores : cnf := [[1]; [-1]; [2]; [-2]].
 Definition F_d19 : cnf := [[5]; [-2; -3]; [-5; 4; 1]; [2; -5]; [-3]; [3]].
@@ -457,8 +487,8 @@ Definition F_d19 : cnf := [[5]; [-2; -3]; [-5; 4; 1]; [2; -5]; [-3]; [3]].
 Lemma unsat_by_dec : forall n f, sat_ref n f = false -> ~ Satisfiable n f.
 Proof. intros n f H Hs. apply sat_ref_ok in Hs. congruence. Qed.
 
-Theorem mus_maxsat_ref_refuted :
-  exists n f s, ~ Satisfiable n f /\ mus_maxsat_ref n f = MusOk s /\ ~ is_mus n f s.
+Theorem mus_maxsat_old_ref_refuted :
+  exists n f s, ~ Satisfiable n f /\ mus_maxsat_old_ref n f = MusOk s /\ ~ is_mus n f s.
 Proof.
   exists 2%nat, F_two_cores, [[1]; [2]; [-1]; [-2]]. split; [|split].
   - apply unsat_by_dec. vm_compute. reflexivity.
@@ -466,8 +496,8 @@ Proof.
   - intros H. apply is_musb_spec in H. vm_compute in H. discriminate.
 Qed.
 
-Theorem mus_maxsat_ref_refuted_d19 :
-  exists s, ~ Satisfiable 5 F_d19 /\ mus_maxsat_ref 5 F_d19 = MusOk s /\ ~ is_mus 5 F_d19 s.
+Theorem mus_maxsat_old_ref_refuted_d19 :
+  exists s, ~ Satisfiable 5 F_d19 /\ mus_maxsat_old_ref 5 F_d19 = MusOk s /\ ~ is_mus 5 F_d19 s.
 Proof.
   eexists. split; [|split].
   - apply unsat_by_dec. vm_compute. reflexivity.
@@ -774,8 +804,8 @@ Proof.
 Qed.
 
 (* ================================================================== *)
-(* 6. The non-minimality of MUSMaxSat does not depend on which optimum  *)
-(*    the MaxSAT oracle returns                                         *)
+(* 6. The non-minimality of the old MUSMaxSat does not depend on which   *)
+(*    optimum the MaxSAT oracle returns                                 *)
 
 Lemma len2_cases : forall m : list bool, length m = 2%nat ->
   m = [true; true] \/ m = [true; false] \/ m = [false; true] \/ m = [false; false].
@@ -827,21 +857,21 @@ Ltac maxsat_step mr Hok :=
                  | exists [false; false]; split; reflexivity ]) ]
   end.
 
-Lemma mus_maxsat_any_oracle_aux : forall minrelax,
+Lemma mus_maxsat_old_any_oracle_aux : forall minrelax,
   (forall hard soft,
     match minrelax 2%nat hard soft with
     | Some m => length m = 2%nat /\ sat_cnf m hard = true /\
                 forall m', length m' = 2%nat -> sat_cnf m' hard = true -> viol m soft <= viol m' soft
     | None => ~ Satisfiable 2 hard
     end) ->
-  not_mus_res 2 F_two_cores (mus_maxsat 2 minrelax F_two_cores).
+  not_mus_res 2 F_two_cores (mus_maxsat_old 2 minrelax F_two_cores).
 Proof.
-  intros mr Hok. unfold mus_maxsat, F_two_cores. cbn [length map].
+  intros mr Hok. unfold mus_maxsat_old, mus_maxsat_gather, F_two_cores. cbn [length map].
   maxsat_step mr Hok; maxsat_step mr Hok; maxsat_step mr Hok.
   all: vm_compute; reflexivity.
 Qed.
 
-Theorem mus_maxsat_refuted_any_oracle : forall minrelax,
+Theorem mus_maxsat_old_refuted_any_oracle : forall minrelax,
   (forall hard soft,
     match minrelax 2%nat hard soft with
     | Some m => length m = 2%nat /\ sat_cnf m hard = true /\
@@ -849,10 +879,10 @@ Theorem mus_maxsat_refuted_any_oracle : forall minrelax,
     | None => ~ Satisfiable 2 hard
     end) ->
   ~ Satisfiable 2 F_two_cores /\
-  exists s, mus_maxsat 2 minrelax F_two_cores = MusOk s /\ ~ is_mus 2 F_two_cores s.
+  exists s, mus_maxsat_old 2 minrelax F_two_cores = MusOk s /\ ~ is_mus 2 F_two_cores s.
 Proof.
   intros mr Hok. split; [apply unsat_by_dec; vm_compute; reflexivity|].
-  pose proof (mus_maxsat_any_oracle_aux mr Hok) as H.
-  destruct (mus_maxsat 2 mr F_two_cores) as [s| | |]; simpl in H; try contradiction.
+  pose proof (mus_maxsat_old_any_oracle_aux mr Hok) as H.
+  destruct (mus_maxsat_old 2 mr F_two_cores) as [s| | |]; simpl in H; try contradiction.
   exists s. split; [reflexivity|]. intros Hm. apply is_musb_spec in Hm. congruence.
 Qed.
